@@ -22,6 +22,9 @@ PAYLOADS_NOSLASH = [
     'up%20to"><xss-7 onx-7=1>', "a%41'><xss-7 onx-7='1", "%3Cxss-7%3E<xss-7>", "100%<xss-7>",
     # nothing but blanks and an equals sign: enough to end an attribute value that is not quoted
     "x onx-7=1 y", " onx-7=alert(1) ", "a\u00a0onx-7=1\u00a0b",
+    # look-alikes that only a compatibility normalisation or a lossy re-encoding turns into markup characters
+    "\uff1cxss-7 onx-7\uff1d1\uff1e", "\uff02\uff1e\uff1cxss-7\uff1e", "\ufe64xss-7\ufe65", "\uff06lt;xss-7\uff06gt;",
+    "\u02c2xss-7\u02c3 \u2039xss-7\u203a", "\u00ab\uff1cxss-7\uff0f\uff1e\u00bb",
 ]
 PAYLOADS_SLASH = ["</TT></A><xss-7>", "</a><xss-7 onx-7=1>", "</p></card><xss-7>", "</TITLE><xss-7>", "<xss-7/>",
                   "</TD></TR><TR onx-7=1>"]
